@@ -1,5 +1,6 @@
 import Driver.Common
 import RSocketModel.Parser
+import RSocketModel.Transport
 open RSocketModel
 namespace Driver
 
@@ -26,5 +27,24 @@ def cmdMsg (args : List String) : String :=
     | some r => showItems r
     | none => "nonterminating"
   | _ => "bad-op"
+
+/-- `tcp <read> ...` with `<read>` = `d<hex>` (what `read` returned; `d-` is the empty result), `eof`, `err` →
+`<items> | reading <residual> / closed / failed` (receiver loop over `TransportTCP`, stub decoder) -/
+def parseRead (t : String) : Option Transport.Read :=
+  if t == "eof" then some .eof
+  else if t == "err" then some .err
+  else if t.startsWith "d" then (ofHex (t.drop 1).toString).map .data
+  else none
+
+def cmdTcp (args : List String) : String :=
+  match args.mapM parseRead with
+  | some reads =>
+    let r := Transport.tcpLoop stubParse [] reads
+    let e := match r.2 with
+      | .reading buf => "reading " ++ hexOrDash buf
+      | .closed => "closed"
+      | .failed => "failed"
+    s!"{" ".intercalate r.1} | {e}"
+  | none => "bad-op"
 
 end Driver
